@@ -619,3 +619,48 @@ def effectivePO (npo : Nat) (s : Sig) (c1 c2 : Call) (ignore : Bool) : Except Bi
     | .error e => .error e
     | .ok n2 => .ok (toCallPO npo s (mergeNamed n1 n2))
 end Pg.C18
+
+namespace Pg.C18
+
+/-! ### Call-time member overrides of class-based functors: per object, per thread
+
+While `A(x=3)` executes, `A._call` reads `self.x` through `Functor._sym_inferred`, which consults
+the overrides of THIS invocation first (functor.py: `self._tls`, one `threading.local` per functor
+object) and the bound attributes otherwise. The store below lists the active invocations
+(innermost first); an entry belongs to one functor object and one thread. -/
+
+structure Activation where
+  obj : Nat
+  thread : Nat
+  overrides : KW
+  deriving Repr, DecidableEq
+
+abbrev OvStore := List Activation
+
+/-- `_apply_call_time_overrides_to_members`: entering an invocation. -/
+def OvStore.enter (st : OvStore) (o t : Nat) (kw : KW) : OvStore := ⟨o, t, kw⟩ :: st
+
+/-- Leaving it (the `finally` branch restores the previous entry of that object). -/
+def OvStore.exit (st : OvStore) : OvStore := st.tail
+
+/-- `obj.<k>` read by thread `t`: the innermost active invocation of `obj` in `t`, else the bound
+attribute. -/
+def resolve (attrs : Nat → KW) (st : OvStore) (o t : Nat) (k : Name) : Option V :=
+  match st.find? (fun a => a.obj == o && a.thread == t) with
+  | some a =>
+    match kget a.overrides k with
+    | some v => some v
+    | none => kget (attrs o) k
+  | none => kget (attrs o) k
+
+/-- The seeded regression: ONE `threading.local` shared by all functor objects — the innermost
+active invocation of the thread wins, whatever object it belongs to. -/
+def resolveSharedTLS (attrs : Nat → KW) (st : OvStore) (o t : Nat) (k : Name) : Option V :=
+  match st.find? (fun a => a.thread == t) with
+  | some a =>
+    match kget a.overrides k with
+    | some v => some v
+    | none => kget (attrs o) k
+  | none => kget (attrs o) k
+
+end Pg.C18
